@@ -1506,7 +1506,7 @@ def run(ctx: C.Ctx):
                 "F: statement-fragment programs (harness/progen.py feature sets + 34 scoping boundary templates: all-new / mixed / all-old tuple assignments at every level, names first bound in branches and loops, for variables re-bound after the loop) through the extracted Lang.Transl + Lang.Scope and through the real transpiler + g++: the theorem's conclusion is re-checked on the extracted model, and a target the model finds invisible must make g++ fail with 'not declared'. "
                 "J: Lang/Reserved.v (table regenerated from parser._CPP_RESERVED_NAMES, rule probed on the real function by the translator) against parser._check_identifier on every name of the harness's own lists (C++ keywords, core names, C library names, generator pools), their mutilations (prefix, suffix, case, one character less), A<digits> of every length and random ASCII identifiers; check_all executed on random name lists. The region itself is searched by D: repaired_boundary_scripts declares every reserved name at one of 14 declaration sites (assignment, main loop, tuple, for variable, function name, parameter, local, inside if / try, comprehension, except target, exception class, dotted class) and twelve names at every site - an accepted script must compile -, plus 20 shapes of literal concatenation / int() of a choice and every except-handler form in setup, main loop and a function. "
                 "K: random IR trees (TryStatement with 0-3 handlers with / without class, dotted classes, the same class several times; IfStatement / WhileLoop / ForRangeLoop / Sleep around them; depth <= 3) for setup, loop and 0-2 function bodies, built from the real IR classes and put through the real emit(): emitter._exception_classes = program_classes of Lang/ExcDecl.v, the struct / namespace lines of the text = class_decl of each in that order, the qualified names of the catch headers = dots_to_colons of the declared classes; oracle on the real text: every class a catch header names is declared by exactly one line, and a sample of the sketches is compiled by g++. "
-                "L: harness/c06_comp.py - binders with a scope of their own that re-use the NAME of an outer variable: scenarios = outer variable of type int / float / String / bool / list[int] / list[float] / list[String] x 24 sites (comprehension at the top level, in an if / else arm, a for / while body, a try body, in a function over a global, over the function's own annotated parameter, in a branch of a function, nested in a comprehension over another / over the SAME name, two comprehensions in a row, range() over the outer variable itself, with a second outer variable in the element, at the top of the main loop and in if / for / try there, as the returned expression, as the argument of len() / of a helper with an un-annotated parameter, assigned twice; a function parameter / a function's for variable of the name of a global) x 17 element forms (arithmetic, float, str(), literal, f-string, conditional expression, comparison, other outer variables, subscript of an outer list, call of a user function) x 8 range() forms (1-3 arguments, negative step, run-time bounds); the outer variable is copied before and after, first assigned in the main loop and returned from a function defined afterwards. Oracle on the real artefacts: the accepted script compiles (g++) AND every name whose type the construction fixes - the copies, the function results, the lists - is declared exactly once in the emitted text with that C++ type (quick: every site with two outer types, two scenarios per script + 8 random scripts; thorough: every site x type alone + 260 random scripts; a failing script is re-run scenario by scenario and the single failing scenario is the replay). Correspondence: seeded sequences of 2-7 top-level assignments (literals, copies, arithmetic, comprehensions nested up to 2 whose targets are mostly declared names) through the extracted Lang.CompScope (wire op 12) and the real parse() + emit(): same accept / reject, same declared names in the same order, same C++ type per declaration; the theorem's conclusions (lexical reference, block scoped) re-checked on the extracted model; the number of sequences on which a popping `finally` would declare another type is measured. The generic generator of D re-uses an outer name in every third comprehension. "
+                "L: harness/c06_comp.py - binders with a scope of their own that re-use the NAME of an outer variable: scenarios = outer variable of type int / float / String / bool / list[int] / list[float] / list[String] x 24 sites (comprehension at the top level, in an if / else arm, a for / while body, a try body, in a function over a global, over the function's own annotated parameter, in a branch of a function, nested in a comprehension over another / over the SAME name, two comprehensions in a row, range() over the outer variable itself, with a second outer variable in the element, at the top of the main loop and in if / for / try there, as the returned expression, as the argument of len() / of a helper with an un-annotated parameter, assigned twice; a function parameter / a function's for variable of the name of a global) x 17 element forms (arithmetic, float, str(), literal, f-string, conditional expression, comparison, other outer variables, subscript of an outer list, call of a user function) x 8 range() forms (1-3 arguments, negative step, run-time bounds); the outer variable is copied before and after, first assigned in the main loop and returned from a function defined afterwards. Oracle on the real artefacts: the accepted script compiles (g++) AND every name whose type the construction fixes - the copies, the function results, the lists - is declared exactly once in the emitted text with that C++ type (quick: every site with two outer types, two scenarios per script + 8 random scripts; thorough: every site x type alone + 260 random scripts; a failing script is re-run scenario by scenario and the single failing scenario is the replay). Correspondence: seeded sequences of 2-7 top-level assignments (literals, copies, arithmetic, comprehensions nested up to 2 whose targets are mostly declared names) through the extracted Lang.CompScope (wire op 12) and the real parse() + emit(): same accept / reject, same declared names in the same order, same C++ type per declaration; the theorem's conclusions (lexical reference, block scoped) re-checked on the extracted model; the number of sequences on which a popping `finally` would declare another type is measured. The generic generator of D re-uses an outer name in every third comprehension, and its comprehensions now also run over range() with 2-3 arguments / a negative step and make lists of strings and bools (str(i), literals, concatenation with outer Strings, comparisons, conditional expressions). "
                 "distinct non-trivial = strings that need escaping + distinct (section-kind multiset, helper set) signatures of compiled scripts",
         "samples": samples[:4],
         "timing_s": timing,
